@@ -4,7 +4,7 @@
    validation: the same questions to every materialisation of a generated tree). *)
 From Coq Require Import List String NArith Bool.
 From Coq Require Import Permutation.
-From AM Require Import Rust.Ast Gen.Archive Ref.Tree Proofs.Tree Ref.Archive Proofs.Archive Tie.Archive.
+From AM Require Import Rust.Ast Gen.Archive Ref.Tree Proofs.Tree Ref.Archive Proofs.Archive Tie.Archive Gen.Private Tie.Graph.
 Import ListNotations.
 
 Theorem C04_listing_is_exactly_the_direct_children : forall t d l,
@@ -71,3 +71,8 @@ Example C04_archive_nonvacuous :
   idx_read_dir (build ms) ["c"]%string = Some [DDir ["c";"d"]]%string /\
   idx_read_dir (build ms) ["zz"]%string = None.
 Proof. vm_compute. repeat split. Qed.
+
+(* FileSystem: id -> path under the root (segments, then the extension through set_extension; the
+   empty id stays inside the root) *)
+Theorem C04_code_path_of_entry : path_of_entry_wf path_of_entry = true.
+Proof. exact path_of_entry_as_specified. Qed.
